@@ -15,7 +15,7 @@ EVIDENCE = dict(
              "independent Python twin used only to search the real code for failing inputs",
              "re.search results shipped as a table; IEEE rounding = executable flExec in the driver"],
     rule="(schema, value) cases: witness, values generated under lo/hi/rnd draws, one-step perturbations at every depth, "
-         "bound±1, hostile values; non-trivial = not the bare witness; distinct by repr")
+         "bound±1, hostile values; non-trivial = not the bare witness; distinct by repr; thorough tier adds the WHOLE small scope: every schema of a small grammar to depth 2 (5.2k) x a fixed universe of 121 values, verdict vs model and vs the independent Conforms oracle")
 
 
 def oracle(ctx, cases):
@@ -53,6 +53,11 @@ def run(ctx):
         ctx.breakage("correspondence", "validator verdict differs between model and code",
                      schema=repr(c.schema), value=repr(c.value), detail=detail, request=c.req)
     ctx.cov["corr_disagreements"] = len(dis)
+    if not ctx.quick():
+        # thorough: the whole small scope (every schema of a small grammar to depth 2 x a fixed value universe), with the
+        # independent Conforms oracle on every case
+        from .. import smallscope
+        smallscope.validate_scope(ctx, view="verdict", oracle=oracle, what="validator verdict")
     for c in cases[:400:67]:
         ctx.sample({"schema": repr(c.schema), "value": repr(c.value), "tag": c.tag,
                     "errors": [type(e).__name__ for e in (c.real or [])]})
